@@ -210,7 +210,7 @@ func (w *srvWorld) provenWaiter() *member {
 
 // C07: id reuse from a small pool, CancelRequest at arbitrary points.
 func scenarioC07(r *Run) {
-	w := newSrvWorld(r, srvCfg{Prop: "C07", MaxMsgs: 6, MaxBatch: 3, IDPool: 5, Invalid: true, Unknown: true, Cancels: 3, HoldP: 0.4, NoteP: 0.15, KMax: 4, BaseCtx: true})
+	w := newSrvWorld(r, srvCfg{Prop: "C07", MaxMsgs: 6, MaxBatch: 3, IDPool: 7, Invalid: true, Unknown: true, RPCInfo: true, Cancels: 3, HoldP: 0.4, NoteP: 0.15, KMax: 4, BaseCtx: true})
 	w.start()
 	if !w.drive(nil) {
 		return
